@@ -525,6 +525,52 @@ func runC14(c *core.Ctx) {
 			}
 		}
 	}
+	// long inputs (12 and 16 groups, beyond any 64-trit block) with one and two faults at every pair of positions
+	for _, codec := range []string{"b1t8", "b1t6"} {
+		group, ngroups := 8, 12
+		faults := []int8{-1, 2}
+		if codec == "b1t6" {
+			group, ngroups = 6, 16
+			faults = nil // b1t6 faults are whole groups out of range: replace a group by 1,1,1,1,1,1 (= 364)
+		}
+		base := make([]int8, 0, group*ngroups+group)
+		for g := 0; g < ngroups; g++ {
+			if codec == "b1t8" {
+				e := refB1T8Enc(byte(g*37 + 5))
+				base = append(base, e[:]...)
+			} else {
+				e := refB1T6Enc(byte(g*37 + 5))
+				base = append(base, e[:]...)
+			}
+		}
+		n := len(base)
+		var jobs [][2]int
+		for p := 0; p < n; p++ {
+			for q := p; q < n; q++ {
+				jobs = append(jobs, [2]int{p, q})
+			}
+		}
+		core.Par(len(jobs), func(i int) {
+			p, q := jobs[i][0], jobs[i][1]
+			if codec == "b1t8" {
+				for _, fp := range faults {
+					for _, fq := range faults {
+						src := append([]int8{}, base...)
+						src[p], src[q] = fp, fq
+						c14JudgeDecode(c, codec, src, "long-two-faults")
+						c14JudgeDecode(c, codec, append(src, 0, 1, 0), "long-two-faults") // plus a bad-length remainder
+					}
+				}
+			} else if p%6 == 0 && q%6 == 0 {
+				src := append([]int8{}, base...)
+				for k := 0; k < 6; k++ {
+					src[p+k], src[q+k] = 1, 1
+				}
+				c14JudgeDecode(c, codec, src, "long-two-faults")
+				c14JudgeDecode(c, codec, append(src, 0, 1), "long-two-faults")
+			}
+		})
+	}
 	if c.Thorough() {
 		// all pairs of b1t8 groups: 43 M
 		var accp [6561]int64
